@@ -48,12 +48,33 @@ fn stub_is_empty(_set: &MoveSet) -> bool {
     !unsafe { HAS_LEGAL_MOVE }
 }
 
-/// contract of PseudoLegalMove::try_as_legal_move (C01/K4): Some only for a legal move (so only if one exists)
+/// the legality oracle on move values: deterministic, and false everywhere when the position has no legal move
+fn oracle_accepts(mv: &Move) -> bool {
+    unsafe { HAS_LEGAL_MOVE && (ORACLE[2] >> (mv.as_raw() % 64)) & 1 == 1 }
+}
+
+/// contract of PseudoLegalMove::try_as_legal_move (C01/K4): Some exactly for the legal moves
 fn stub_try_as_legal_move(mv: PseudoLegalMove, state: &State) -> Option<MoveResult> {
-    if unsafe { HAS_LEGAL_MOVE } && kani::any() {
+    if oracle_accepts(&mv) {
         Some(MoveResult(*mv, state.clone()))
     } else {
         None
+    }
+}
+
+// the pseudo-legal generator's contract (C01/K1-K3), for implementations of `evaluate` that go through it: up to three
+// arbitrary move values; the harness assumes the oracle accepts one of them exactly when a legal move exists
+static mut PSEUDO: [u32; 4] = [0; 4];
+
+fn stub_pseudo_legal_into(_state: &State, result: &mut Vec<PseudoLegalMove>) {
+    result.clear();
+    let z = unsafe { PSEUDO };
+    let mut i = 0;
+    while i < 3 {
+        if (i as u32) < z[3] {
+            result.push(PseudoLegalMove::new(weechess_core::verif_c20::move_from_raw(z[i])));
+        }
+        i += 1;
     }
 }
 
@@ -116,6 +137,7 @@ fn symbolic_state() -> (State, bool) {
 #[kani::stub(weechess_core::MoveGenerator::compute_legal_moves, stub_compute_legal_moves)]
 #[kani::stub(weechess_core::MoveSet::is_empty, stub_is_empty)]
 #[kani::stub(weechess_core::PseudoLegalMove::try_as_legal_move, stub_try_as_legal_move)]
+#[kani::stub(weechess_core::MoveGenerator::compute_psuedo_legal_moves_into, stub_pseudo_legal_into)]
 #[kani::stub(weechess_core::Board::colored_attacks, stub_colored_attacks)]
 #[kani::stub(weechess_core::AttackGenerator::compute_king_attacks, stub_king_attacks)]
 fn c05_evaluate_decision_logic() {
@@ -123,6 +145,19 @@ fn c05_evaluate_decision_logic() {
         HAS_LEGAL_MOVE = kani::any();
         ORACLE = kani::any();
         kani::assume(ORACLE[1].count_ones() <= 8); // a king has at most eight neighbours
+        PSEUDO = kani::any();
+        kani::assume(PSEUDO[3] <= 3);
+        let mut any_accepted = false;
+        let mut i = 0;
+        while i < 3 {
+            kani::assume(weechess_core::verif_c20::valid_raw(PSEUDO[i]));
+            if (i as u32) < PSEUDO[3] && oracle_accepts(&weechess_core::verif_c20::move_from_raw(PSEUDO[i])) {
+                any_accepted = true;
+            }
+            i += 1;
+        }
+        // consistency of the callee contracts: a legal move exists exactly when the pseudo-legal list holds an accepted one
+        kani::assume(any_accepted == HAS_LEGAL_MOVE);
     }
     let (state, in_check) = symbolic_state();
     let perspective = if kani::any() { Color::White } else { Color::Black };
